@@ -47,6 +47,7 @@ func reset_BANG(atomRef, value MalType) (MalType, error) {
 	atm.Mutex.Lock()
 	defer atm.Mutex.Unlock()
 	atm.Set(value)
+	verifAt("reset.set", atm)
 	return value, nil
 }
 
@@ -58,13 +59,16 @@ func swap_BANG(ctx context.Context, a ...MalType) (MalType, error) {
 	atm.Mutex.Lock()
 	defer atm.Mutex.Unlock()
 	args := []MalType{atm.Val}
+	verifAt("swap.read", atm)
 	f := a[1]
 	args = append(args, a[2:]...)
 	res, e := Apply(ctx, f, args)
+	verifAt("swap.applied", atm)
 	if e != nil {
 		return nil, e
 	}
 	atm.Set(res)
+	verifAt("swap.set", atm)
 	return res, nil
 }
 
@@ -88,6 +92,7 @@ func (a *Atom) Set(val MalType) MalType {
 func (a *Atom) Deref(_ context.Context) (MalType, error) {
 	a.Mutex.RLock()
 	defer a.Mutex.RUnlock()
+	verifAt("deref.read", a)
 	return a.Val, nil
 }
 
@@ -122,12 +127,15 @@ func NewFuture(ctx context.Context, fn MalFunc) *Future {
 	}
 	go func() {
 		defer func() { f.Done = true }()
+		verifAt("future.start", f)
 		res, err := Apply(ctx, fn, nil)
 		if err != nil {
 			f.ErrChan <- err
+			verifAt("future.delivered", f)
 			return
 		}
 		f.ValChan <- res
+		verifAt("future.delivered", f)
 	}()
 
 	return f
@@ -135,6 +143,7 @@ func NewFuture(ctx context.Context, fn MalFunc) *Future {
 
 func (f *Future) Cancel() bool {
 	if !f.Done {
+		verifAt("cancel.checked", f)
 		f.Cancelled = true
 		f.Done = true
 		f.CancelFunc()
@@ -147,9 +156,11 @@ func (f *Future) Deref(ctx context.Context) (MalType, error) {
 	case <-ctx.Done():
 		return nil, errors.New("timeout while dereferencing future")
 	case err := <-f.ErrChan:
+		verifAt("deref.taken", f)
 		f.ErrChan <- err
 		return nil, err
 	case res := <-f.ValChan:
+		verifAt("deref.taken", f)
 		f.ValChan <- res
 		return res, nil
 	}
